@@ -51,23 +51,23 @@ const S4_BOUNDS: &str = "1-4 client threads, <= 8 operations, <= 4 in flight, <=
 pub const PROPS: &[PropInfo] = &[
     PropInfo { id: "C08", subsystem: "s4", runs: (300000, 12000000), rule: "one case = one concurrent history produced by a seeded schedule of simulated clients against a (possibly faulty) simulated object, fed event by event to the real tester; invoke/return events are stamped with their global sequence number; distinct = distinct (spec, initial value, event list); non-trivial = >= 3 events", oracle: "after every event: is_consistent() == exhaustive search of the definition (all orders of the completed operations plus any subset of in-flight ones, per-thread order, real-time precedence, legal for the spec); serialized_history() is such an order; ill-formed events give Err and stay Err/false/None", real: S4_REAL, stub: S4_STUB, bounds: S4_BOUNDS },
     PropInfo { id: "C14", subsystem: "s4", runs: (400000, 20000000), rule: "as C08, both testers fed the same events", oracle: "as C08 without the real-time filter; every prefix accepted by the linearizability tester is accepted by the sequential-consistency tester; a clone taken before each event is unchanged after the original moved on", real: S4_REAL, stub: S4_STUB, bounds: S4_BOUNDS },
-    PropInfo { id: "C17", subsystem: "s3", runs: (4000, 200000), rule: "one case = 1-4 instrumented script actors run by the real actor::spawn() loop (one simulation thread each) on virtual UDP sockets bound to seeded IPv4 addresses, under the scheduler and the virtual clock, with per-run rates of datagram drop, duplication, delay/reordering, send and receive errors, junk / empty / foreign datagrams injected by an outside peer, stalls; distinct = distinct hash of scheduling decisions and hook events; non-trivial = at least two handler invocations", oracle: "merged handler log vs socket-seam log: on_start first and once; every on_msg matches (injectively) a datagram already delivered to that socket with the deserialized payload and Id::from(sender address); sends of a handler appear on its socket in order before its next handler; a timer fires only while armed and no earlier than arming + range.start; state threading; Id <-> SocketAddrV4 round trips", real: &["actor::spawn() event loop, on_command, timer bookkeeping (next_interrupts)", "Id <-> SocketAddrV4 conversions", "serde_json codec through the serialize/deserialize fn pointers", "crossbeam scoped actor threads (real threads, scheduled by the baton scheduler)"], stub: &["UdpSocket (virtual UDP with fault injection)", "Instant::now / read timeouts (virtual clock)", "rand::thread_rng in spawn.rs (seeded)", "OS scheduling of the actor threads"], bounds: "1-4 actors + 1 outside peer, <= 8 injected datagrams, virtual horizon 0.1-2.5 s, network latency 0.2-51 ms, timer ranges 1-800 ms, step budget 40k" },
+    PropInfo { id: "C17", subsystem: "s3", runs: (3000, 200000), rule: "one case = 1-4 instrumented script actors run by the real actor::spawn() loop (one simulation thread each) on virtual UDP sockets bound to seeded IPv4 addresses, under the scheduler and the virtual clock, with per-run rates of datagram drop, duplication, delay/reordering, send and receive errors, junk / empty / foreign datagrams injected by an outside peer, stalls; distinct = distinct hash of scheduling decisions and hook events; non-trivial = at least two handler invocations", oracle: "merged handler log vs socket-seam log: on_start first and once; every on_msg matches (injectively) a datagram already delivered to that socket with the deserialized payload and Id::from(sender address); sends of a handler appear on its socket in order before its next handler; a timer fires only while armed and no earlier than arming + range.start; state threading; Id <-> SocketAddrV4 round trips", real: &["actor::spawn() event loop, on_command, timer bookkeeping (next_interrupts)", "Id <-> SocketAddrV4 conversions", "serde_json codec through the serialize/deserialize fn pointers", "crossbeam scoped actor threads (real threads, scheduled by the baton scheduler)"], stub: &["UdpSocket (virtual UDP with fault injection)", "Instant::now / read timeouts (virtual clock)", "rand::thread_rng in spawn.rs (seeded)", "OS scheduling of the actor threads"], bounds: "1-4 actors + 1 outside peer, <= 8 injected datagrams, virtual horizon 0.1-2.5 s, network latency 0.2-51 ms, timer ranges 1-800 ms, step budget 40k" },
     PropInfo { id: "C18", subsystem: "s4", runs: (300000, 15000000), rule: "spec half: the operation sequence of a generated history is applied to the reference object; every step is checked with its actual return and a perturbed one; harness half: seeded walks of register-harness actor systems (RegisterActor / WORegisterActor clients, servers answering each request at most once) over all network kinds", oracle: "is_valid_step(op, r) == (invoke(op) == r) and equal object state after a valid step; is_valid_history == invoking from the initial object; per client at most one outstanding request with a fresh id; the recorded tester equals a shadow tester fed with exactly the client-visible sends and accepted replies, and never reports an ill-formed history", real: S4_REAL, stub: S4_STUB, bounds: S4_BOUNDS },
     PropInfo { id: "C04", subsystem: "s2", runs: (100000, 5000000), rule: "one case = one seeded fault-heavy walk of a generated actor system; every reached state, a perturbed rebuild of it (shuffled insertion order, other hasher keys, spare capacity, remove+reinsert) and its neighbours (crash flag flipped, timer/choice moved to the adjacent actor, message removed) enter a pool together with container families (sets/maps side by side, nested, Vec<Timers>, VectorClock with trailing zeros, DenseNatMap); distinct = distinct state fingerprints reached; non-trivial = walk of >= 2 steps", oracle: "equal canonical dump => equal fingerprint; different dump => different sequence of typed Hasher calls; == <=> equal dump", real: S2_REAL, stub: S2_STUB, bounds: S2_BOUNDS },
     PropInfo { id: "C06", subsystem: "s2", runs: (200000, 10000000), rule: "one case = one seeded walk (<= 80 steps) of a generated actor system in lockstep with the reference stepper; distinct = distinct state fingerprints reached; non-trivial = >= 2 steps taken", oracle: "at every step the set of effective (action, successor) pairs of the real model equals the reference's, component by component (actor state, network, timers, choices, crash flags, history order)", real: S2_REAL, stub: S2_STUB, bounds: S2_BOUNDS },
     PropInfo { id: "C07", subsystem: "s2", runs: (200000, 10000000), rule: "as C06 with traffic-heavy systems: repeated identical messages, several per flow, initial network contents, drops and redeliveries", oracle: "network content == reference flows/multiset/set after every step; deliverable set, drop offers, len(), iter_all() (bounded consumption) and iter_deliverable() agree with the content", real: S2_REAL, stub: S2_STUB, bounds: S2_BOUNDS },
-    PropInfo { id: "C09", subsystem: "s2", runs: (12000, 600000), rule: "as C06 with crash budget 1-2 and crashes biased to land right after a send to the victim, with timers armed and choices pending; plus real BFS/DFS runs on small actor systems compared with the reference reachable set", oracle: "crash offered <=> actor up and fewer than k down; crash clears timers/choices and sets the flag only; no step of a crashed actor is ever effective; deliveries to it leave the message in place; the checker visits exactly the reference's reachable dumps (crash configurations are distinct)", real: S2_REAL, stub: S2_STUB, bounds: S2_BOUNDS },
+    PropInfo { id: "C09", subsystem: "s2", runs: (30000, 1500000), rule: "as C06 with crash budget 1-2 and crashes biased to land right after a send to the victim, with timers armed and choices pending; plus real BFS/DFS runs on small actor systems compared with the reference reachable set", oracle: "crash offered <=> actor up and fewer than k down; crash clears timers/choices and sets the flag only; no step of a crashed actor is ever effective; deliveries to it leave the message in place; the checker visits exactly the reference's reachable dumps (crash configurations are distinct)", real: S2_REAL, stub: S2_STUB, bounds: S2_BOUNDS },
     PropInfo { id: "C15", subsystem: "s2", runs: (150000, 8000000), rule: "one case = one seeded lockstep walk (<= 60 steps) of a bare actor system and the same system wrapped in an adapter (Choice<A,Never>, Choice<A1,A2> in L/R positions, three-level nesting, RegisterActor::Server, WORegisterActor::Server, Vec client vs reference client), actors using messages, timers and random choices; distinct = distinct walk signatures; non-trivial = >= 2 lockstep steps", oracle: "at every step the effective steps of both systems correspond one to one and the successor states are equal modulo the wrapper constructor (actor states, network, timers, choices, crash flags)", real: &["Choice<A,Never>, Choice<A1,A2> Actor impls", "RegisterActor::Server / WORegisterActor::Server forwarding", "impl Actor for Vec<(Id,Msg)>", "ActorModel stepping both systems"], stub: S2_STUB, bounds: S2_BOUNDS },
     PropInfo { id: "C16", subsystem: "s2", runs: (200000, 10000000), rule: "one case = 2-3 link-wrapped actors (logging receivers, some ignoring messages in some states) sending 1-7 uniquely numbered messages to 1-2 peers over a duplicating / non-duplicating / ordered network, lossy or not; a seeded walk of <= 70 steps chooses deliveries, drops and resend-timer firings, followed by a quiescence phase (no drops, fair deliveries and resends); distinct = distinct walk signatures; non-trivial = >= 3 steps", oracle: "at every state, per (sender, receiver): the sequence handed to the wrapped actor is a prefix of the sequence sent to that peer; a message not yet handed over is still pending acknowledgement; when nothing is pending for that receiver the sequences are equal", real: &["ordered_reliable_link::ActorWrapper (on_start/on_msg/on_timeout, process_output, sequencers, acks, resend)", "ActorModel stepping, Network (all kinds), lossy drops"], stub: &["the wrapped actors (scripted senders / logging receivers)", "the choice of which delivery, drop or resend happens next (seeded walker)"], bounds: "2-3 actors, <= 7 messages per sender, walks <= 70 + 40 steps" },
-    PropInfo { id: "C10", subsystem: "s2", runs: (10000, 500000), rule: "S2 half: every state reached by a seeded walk is passed to representative(); S1 half: DFS with and without symmetry on symmetric process models under the scheduler", oracle: "representative() == the state permuted (actor order, envelope endpoints, ids inside messages/history/local state, timers, crash flags, choices) by the stable argsort of the actor states, computed by harness code", real: S2_REAL, stub: S2_STUB, bounds: S2_BOUNDS },
-    PropInfo { id: "C01", subsystem: "s1", runs: (30000, 1500000), rule: "one case = one generated (graph model, checker configuration, schedule seed) executed by the real checker under the deterministic scheduler; distinct = distinct hash of the sequence of scheduling decisions and hook events; non-trivial = the run evaluated at least one state and took >= 30 scheduling steps (or > 2 context switches)", oracle: "visitor multiset == independent reachability set, each state once, visitor paths re-executed on the graph, unique_state_count == |reachable|, state_count >= unique", real: S1_REAL, stub: S1_STUB, bounds: S1_BOUNDS },
-    PropInfo { id: "C02", subsystem: "s1", runs: (30000, 1500000), rule: "as C01 with 1-5 always/sometimes(/eventually) properties labelled on the states", oracle: "discovery <=> witness exists in the independent reachable set; assert_properties/is_done agree", real: S1_REAL, stub: S1_STUB, bounds: S1_BOUNDS },
-    PropInfo { id: "C03", subsystem: "s1", runs: (30000, 1500000), rule: "as C01 over all five strategies, finish conditions, targets, depth limits, timeouts", oracle: "every path of discoveries() after join re-executed on the graph; last state witnesses; eventually paths never satisfy and are maximal (or close a cycle, simulation only)", real: S1_REAL, stub: S1_STUB, bounds: S1_BOUNDS },
-    PropInfo { id: "C05", subsystem: "s1", runs: (20000, 1000000), rule: "as C01 with 2-4 workers, block sizes 1-8, all scheduling policies, panics in model code, timeouts; plus the job-market facade workload", oracle: "no deadlock, termination within the step budget, same evaluated set and verdicts as the single-threaded run, no state evaluated twice or lost, a worker panic surfaces from join", real: S1_REAL, stub: S1_STUB, bounds: S1_BOUNDS },
-    PropInfo { id: "C11", subsystem: "s1", runs: (30000, 1500000), rule: "as C01 with eventually-properties on forests and general graphs", oracle: "reported => a maximal never-satisfying in-boundary path exists (reference graph search); on forests with completed exhaustive runs also <=", real: S1_REAL, stub: S1_STUB, bounds: S1_BOUNDS },
-    PropInfo { id: "C12", subsystem: "s1", runs: (6000, 300000), rule: "as C01 over the cross product of finish condition x targets x depth x timeout x threads x strategy, with virtual-clock timeouts, wall-clock jumps and counter-tail models", oracle: "HasDiscoveries::matches == reference predicate; early stop justified; target and depth honoured; after timeout expiry (faults stopped) join returns within a bounded number of fair steps; unexpired timeout changes nothing and nobody blocks on a lock whose owner sleeps; seed replays first trace", real: S1_REAL, stub: S1_STUB, bounds: S1_BOUNDS },
-    PropInfo { id: "C19", subsystem: "s1x", runs: (20000, 1000000), rule: "one case = a generated graph model checked by the real on-demand checker (1-3 workers, block sizes 1-1500) behind the Explorer's request handlers (called directly, without the HTTP server), with a seeded script of 1-10 requests (states for valid / mutated / unparsable fingerprint paths, status, check_fingerprint for pending and bogus states) issued by a simulated browser thread between quiescent points while 0-2 other browser threads poll status, then run-to-completion; plus Path API calls on a reference walk; distinct = distinct hash of scheduling decisions and hook events; non-trivial = at least one state evaluated or >= 30 steps", oracle: "states lists exactly the model's actions at the final state in order with successor state and fingerprint (ignored actions without); 404 <=> the sequence denotes no execution; status counts lie between the checker's counts before and after, every property path decodes to a genuine witness; a requested pending state is evaluated and its successors become generated; after run-to-completion is_done and evaluated set / verdicts equal the reference; from_actions / encode / into_* / from_fingerprints / final_state agree with the reference walk and reject non-executions", real: S1_REAL, stub: &["OS thread scheduling, clocks", "tiny_http server and the routing match (the handlers behind the routes are called directly)", "ui/app.js (never executed)", "the model under check (generated graphs)"], bounds: "<= 30 states, 1-3 workers, <= 10 requests, <= 2 polling browser threads" },
-    PropInfo { id: "C13", subsystem: "s1", runs: (40000, 2000000), rule: "single-worker BFS on generated graphs with every block size", oracle: "visit depths non-decreasing and equal to the reference shortest distance; witness length == shortest distance to a witnessing state", real: S1_REAL, stub: S1_STUB, bounds: S1_BOUNDS },
+    PropInfo { id: "C10", subsystem: "s2", runs: (30000, 1500000), rule: "S2 half: every state reached by a seeded walk is passed to representative(); S1 half: DFS with and without symmetry on symmetric process models under the scheduler", oracle: "representative() == the state permuted (actor order, envelope endpoints, ids inside messages/history/local state, timers, crash flags, choices) by the stable argsort of the actor states, computed by harness code", real: S2_REAL, stub: S2_STUB, bounds: S2_BOUNDS },
+    PropInfo { id: "C01", subsystem: "s1", runs: (100000, 4000000), rule: "one case = one generated (graph model, checker configuration, schedule seed) executed by the real checker under the deterministic scheduler; distinct = distinct hash of the sequence of scheduling decisions and hook events; non-trivial = the run evaluated at least one state and took >= 30 scheduling steps (or > 2 context switches)", oracle: "visitor multiset == independent reachability set, each state once, visitor paths re-executed on the graph, unique_state_count == |reachable|, state_count >= unique", real: S1_REAL, stub: S1_STUB, bounds: S1_BOUNDS },
+    PropInfo { id: "C02", subsystem: "s1", runs: (80000, 3000000), rule: "as C01 with 1-5 always/sometimes(/eventually) properties labelled on the states", oracle: "discovery <=> witness exists in the independent reachable set; assert_properties/is_done agree", real: S1_REAL, stub: S1_STUB, bounds: S1_BOUNDS },
+    PropInfo { id: "C03", subsystem: "s1", runs: (100000, 4000000), rule: "as C01 over all five strategies, finish conditions, targets, depth limits, timeouts", oracle: "every path of discoveries() after join re-executed on the graph; last state witnesses; eventually paths never satisfy and are maximal (or close a cycle, simulation only)", real: S1_REAL, stub: S1_STUB, bounds: S1_BOUNDS },
+    PropInfo { id: "C05", subsystem: "s1", runs: (40000, 2000000), rule: "as C01 with 2-4 workers, block sizes 1-8, all scheduling policies, panics in model code, timeouts; plus the job-market facade workload", oracle: "no deadlock, termination within the step budget, same evaluated set and verdicts as the single-threaded run, no state evaluated twice or lost, a worker panic surfaces from join", real: S1_REAL, stub: S1_STUB, bounds: S1_BOUNDS },
+    PropInfo { id: "C11", subsystem: "s1", runs: (100000, 4000000), rule: "as C01 with eventually-properties on forests and general graphs", oracle: "reported => a maximal never-satisfying in-boundary path exists (reference graph search); on forests with completed exhaustive runs also <=", real: S1_REAL, stub: S1_STUB, bounds: S1_BOUNDS },
+    PropInfo { id: "C12", subsystem: "s1", runs: (10000, 500000), rule: "as C01 over the cross product of finish condition x targets x depth x timeout x threads x strategy, with virtual-clock timeouts, wall-clock jumps and counter-tail models", oracle: "HasDiscoveries::matches == reference predicate; early stop justified; target and depth honoured; after timeout expiry (faults stopped) join returns within a bounded number of fair steps; unexpired timeout changes nothing and nobody blocks on a lock whose owner sleeps; seed replays first trace", real: S1_REAL, stub: S1_STUB, bounds: S1_BOUNDS },
+    PropInfo { id: "C19", subsystem: "s1x", runs: (40000, 2000000), rule: "one case = a generated graph model checked by the real on-demand checker (1-3 workers, block sizes 1-1500) behind the Explorer's request handlers (called directly, without the HTTP server), with a seeded script of 1-10 requests (states for valid / mutated / unparsable fingerprint paths, status, check_fingerprint for pending and bogus states) issued by a simulated browser thread between quiescent points while 0-2 other browser threads poll status, then run-to-completion; plus Path API calls on a reference walk; distinct = distinct hash of scheduling decisions and hook events; non-trivial = at least one state evaluated or >= 30 steps", oracle: "states lists exactly the model's actions at the final state in order with successor state and fingerprint (ignored actions without); 404 <=> the sequence denotes no execution; status counts lie between the checker's counts before and after, every property path decodes to a genuine witness; a requested pending state is evaluated and its successors become generated; after run-to-completion is_done and evaluated set / verdicts equal the reference; from_actions / encode / into_* / from_fingerprints / final_state agree with the reference walk and reject non-executions", real: S1_REAL, stub: &["OS thread scheduling, clocks", "tiny_http server and the routing match (the handlers behind the routes are called directly)", "ui/app.js (never executed)", "the model under check (generated graphs)"], bounds: "<= 30 states, 1-3 workers, <= 10 requests, <= 2 polling browser threads" },
+    PropInfo { id: "C13", subsystem: "s1", runs: (150000, 6000000), rule: "single-worker BFS on generated graphs with every block size", oracle: "visit depths non-decreasing and equal to the reference shortest distance; witness length == shortest distance to a witnessing state", real: S1_REAL, stub: S1_STUB, bounds: S1_BOUNDS },
 ];
 
 pub fn info(prop: &str) -> Option<&'static PropInfo> {
